@@ -134,6 +134,24 @@ def dropHead : Pending → Nat → Pending
   | evs :: rest, 0 => evs.drop 1 :: rest
   | evs :: rest, i + 1 => evs :: dropHead rest i
 
+/-- look-ahead when a transaction begins: its own statements depend on nothing but the snapshot taken now and its own
+    earlier statements, so what they will answer can be compared with the observation at once (the events themselves are
+    placed later, where the ticket order allows) -/
+def lookahead (render : Render) : Spec.State → List Ev → Bool
+  | _, [] => true
+  | α, e :: rest =>
+    if e.closes then true
+    else match e.op with
+      | .exec _ _ =>
+        let r := Spec.step α e.op
+        expectOk render e.expect r.2 && lookahead render r.1 rest
+      | _ => true
+
+def isBegin (e : Ev) : Bool :=
+  match e.op with
+  | .begin _ => true
+  | _ => false
+
 /-- depth-first search for a schedule; `d` bounds the depth (number of events), the second component of the result is
     what is left of the node budget -/
 def search (render : Render) : Nat → Nat → Spec.State → Pending → List Nat → Option (List Nat) × Nat
@@ -147,12 +165,18 @@ def search (render : Render) : Nat → Nat → Spec.State → Pending → List N
         | (none, 0) => (none, 0)
         | (none, b + 1) =>
           let s := Spec.step α c.2.op
-          if expectOk render c.2.expect s.2 then search render d b s.1 (dropHead p c.1) (c.1 :: acc) else (none, b)) (none, b)
+          if expectOk render c.2.expect s.2 && (!isBegin c.2 || lookahead render s.1 ((p.getD c.1 []).drop 1)) then
+            search render d b s.1 (dropHead p c.1) (c.1 :: acc)
+          else (none, b)) (none, b)
 
 def totalEvents (p : Pending) : Nat := (p.map List.length).foldl (· + ·) 0
 
 def findSchedule (render : Render) (cat : Catalog) (budget : Nat) (p : Pending) : Option (List Nat) :=
   (search render (totalEvents p) budget (Spec.State.init cat) p []).1
+
+/-- did the search give up for lack of budget (rather than exhaust the possible orders)? -/
+def searchExhaustedBudget (render : Render) (cat : Catalog) (budget : Nat) (p : Pending) : Bool :=
+  (search render (totalEvents p) budget (Spec.State.init cat) p []).2 == 0
 
 /-- **The checker.**  `budget` bounds the search only; acceptance is decided by `verify`. -/
 def checkSerialSI (render : Render) (cat : Catalog) (budget : Nat) (p : Pending) : Bool :=
